@@ -299,3 +299,12 @@ func (c *Ctx) Finish(rule string, floor int, assumptions ...string) {
 
 // Hex is a tiny helper for evidence samples.
 func Hex(b []byte) string { return hex.EncodeToString(b) }
+
+// RepoDir is the aergo checkout the driver was built from (/repo unless VERIF_REPO is set
+// by a developer testing a scratch worktree).
+func RepoDir() string {
+	if d := os.Getenv("VERIF_REPO"); d != "" {
+		return d
+	}
+	return "/repo"
+}
